@@ -45,6 +45,9 @@ type Outcome struct {
 	Evals      int            // oracle evaluations
 	Sample     any
 	Exhaustive bool
+	// XProc: values that must be identical in every process that computes them (checked by the
+	// supervisor across workers), e.g. hash of the bytes of a compiled fixture
+	XProc map[string]string
 }
 
 func (o *Outcome) fault(k string) {
@@ -318,6 +321,7 @@ type summary struct {
 	MapSeamed     int64          `json:"map_iterations_seamed"`
 	MapUnseamed   int64          `json:"map_iterations_unseamed"`
 	MapPermuted   int64          `json:"map_iterations_permuted"`
+	XProc         map[string]string `json:"xproc"`
 	Done          bool           `json:"done"`
 	RaceBuild     bool           `json:"race_build"`
 	StoppedEarly  string         `json:"stopped_early,omitempty"`
@@ -453,6 +457,15 @@ func TestWorker(t *testing.T) {
 		}
 		if o.NonTrivial {
 			descs[hash64(o.Desc)] = struct{}{}
+		}
+		for k, v := range o.XProc {
+			if sum.XProc == nil {
+				sum.XProc = map[string]string{}
+			}
+			if old, ok := sum.XProc[k]; ok && old != v && o.Viol == nil {
+				o.violate("differs-within-process", "differs-within-process:"+strings.SplitN(k, "/", 2)[0], fmt.Sprintf("%s: %s earlier in this process, %s now", k, old, v))
+			}
+			sum.XProc[k] = v
 		}
 		if o.Sample != nil && len(sum.Samples) < 3 {
 			sum.Samples = append(sum.Samples, o.Sample)
